@@ -1,0 +1,68 @@
+//go:build verif
+
+package packer
+
+// Contracts for the hvc verifier (/verif). Comment-only.
+// ghostint(p, "fields") counts the fields appended so far (a ghost: no code reads it).
+
+//@ func NewPacker(AesKey []byte, AesIV []byte) (p *Packer)
+//@   ensures new: p != nil && fresh(p) && len(p.data) == 0 && p.size == 0 && sameslice(p.AesKey, AesKey) && sameslice(p.AesIV, AesIV)
+//@   ghost-def ghostint(p, "fields") = 0
+
+//@ func (p *Packer) AddInt(data int)
+//@   requires nonnil: p != nil
+//@   modifies p.data, p.size, elems(p.data)
+//@   ensures bytes: p.data == cat(old(p.data), le32(data))
+//@   ensures size:  p.size == old(p.size) + 4
+//@   ghost-def ghostint(p, "fields") = old(ghostint(p, "fields")) + 1
+
+//@ func (p *Packer) AddInt32(data int32)
+//@   requires nonnil: p != nil
+//@   modifies p.data, p.size, elems(p.data)
+//@   ensures bytes: p.data == cat(old(p.data), le32(data))
+//@   ensures size:  p.size == old(p.size) + 4
+//@   ghost-def ghostint(p, "fields") = old(ghostint(p, "fields")) + 1
+
+//@ func (p *Packer) AddUInt32(data uint32)
+//@   requires nonnil: p != nil
+//@   modifies p.data, p.size, elems(p.data)
+//@   ensures bytes: p.data == cat(old(p.data), le32(data))
+//@   ensures size:  p.size == old(p.size) + 4
+//@   ghost-def ghostint(p, "fields") = old(ghostint(p, "fields")) + 1
+
+//@ func (p *Packer) AddInt64(data int64)
+//@   requires nonnil: p != nil
+//@   modifies p.data, p.size, elems(p.data)
+//@   ensures bytes: p.data == cat(old(p.data), le64(data))
+//@   ensures size:  p.size == old(p.size) + 8
+//@   ghost-def ghostint(p, "fields") = old(ghostint(p, "fields")) + 1
+
+//@ func (p *Packer) AddBytes(data []byte)
+//@   requires nonnil: p != nil
+//@   requires noalias: len(data) == 0 || cap(p.data) == 0 || !samearray(data, p.data)
+//@   modifies p.data, p.size, elems(p.data)
+//@   ensures bytes: p.data == cat(old(p.data), le32(len(data)), old(data))
+//@   ensures size:  p.size == old(p.size) + 4 + len(data)
+//@   ghost-def ghostint(p, "fields") = old(ghostint(p, "fields")) + 1
+
+//@ func (p *Packer) AddWString(data string)
+//@   requires nonnil: p != nil
+//@   modifies p.data, p.size, elems(p.data), ghostint(p, "fields")
+//@   ensures prefix: len(p.data) >= old(len(p.data)) + 4 && p.data[:old(len(p.data))] == old(p.data)
+//@   ensures count:  ghostint(p, "fields") == old(ghostint(p, "fields")) + 1
+
+//@ func (p *Packer) AddString(data string)
+//@   requires nonnil: p != nil
+//@   modifies p.data, p.size, elems(p.data), ghostint(p, "fields")
+//@   ensures prefix: len(p.data) >= old(len(p.data)) + 4 && p.data[:old(len(p.data))] == old(p.data)
+//@   ensures count:  ghostint(p, "fields") == old(ghostint(p, "fields")) + 1
+
+//@ func (p *Packer) Buffer() (r []byte)
+//@   requires nonnil: p != nil
+//@   pure
+//@   ensures same: sameslice(r, p.data)
+
+//@ func (p *Packer) Size() (n int)
+//@   requires nonnil: p != nil
+//@   pure
+//@   ensures same: n == p.size
